@@ -178,10 +178,55 @@ class Abs:
         return t
 
     def _single_def(self, fn: FuncInfo, name: str) -> Optional[ast.AST]:
-        env = self.cg.env(fn)
-        sites = env._assign_sites.get(name, [])
-        if len(sites) == 1 and sites[0][0] == 'expr' and name not in [a.arg for a in fn.params()]:
-            return sites[0][1]
+        return self.cg.env(fn).single_def(name)
+
+    def _dominating_def(self, fn: FuncInfo, name: str, node: ast.AST) -> Optional[ast.expr]:
+        """The expression last assigned to local `name` on EVERY path to `node`: the closest `name = E` that precedes the
+        statement of `node` in its own block or in an enclosing block, with no statement in between that may bind the name
+        again (a loop around the use must not bind it at all: the back edge would carry the later value)."""
+        prog = self.prog
+
+        def binds(st: ast.AST) -> bool:
+            for x in ast.walk(st):
+                if isinstance(x, ast.Name) and x.id == name and isinstance(x.ctx, (ast.Store, ast.Del)):
+                    return True
+                if isinstance(x, (ast.Global, ast.Nonlocal)) and name in x.names:
+                    return True
+            return False
+        cur = self.flow.enclosing_stmt(node)
+        while cur is not None and cur is not fn.node:
+            par = prog.parent(cur)
+            if par is None:
+                return None
+            blk = None
+            for fld in ('body', 'orelse', 'finalbody'):
+                b = getattr(par, fld, None)
+                if isinstance(b, list) and any(x is cur for x in b):
+                    blk = b
+            if blk is None and isinstance(par, ast.ExceptHandler):
+                return None          # inside a handler: the try body may have been left anywhere
+            if blk is None:
+                return None
+            i = next(k for k, x in enumerate(blk) if x is cur)
+            for st in reversed(blk[:i]):
+                if isinstance(st, ast.Assign) and len(st.targets) == 1 and isinstance(st.targets[0], ast.Name) and \
+                        st.targets[0].id == name:
+                    return st.value
+                if isinstance(st, ast.AnnAssign) and isinstance(st.target, ast.Name) and st.target.id == name and st.value is not None:
+                    return st.value
+                if binds(st):
+                    return None
+            if par is fn.node:
+                return None
+            if isinstance(par, (ast.For, ast.AsyncFor, ast.While)) and binds(par):
+                return None
+            if isinstance(par, (ast.FunctionDef, ast.AsyncFunctionDef, ast.Lambda, ast.ClassDef)):
+                return None
+            if isinstance(par, ast.Try) and blk is not par.body:
+                return None
+            if isinstance(par, ast.ExceptHandler):
+                return None
+            cur = par
         return None
 
     def _narrow(self, fn, t: tuple, e: ast.expr, cond: ast.expr, pol: bool) -> tuple:
@@ -290,6 +335,13 @@ class Abs:
                     v.truthy = dv.truthy
                     v.enum = dv.enum
                     v.const, v.has_const = dv.const, dv.has_const
+                elif node is not None and v.none == MAYBE and e.id in self.cg.env(fn)._assign_sites and \
+                        isinstance(getattr(e, 'ctx', None), ast.Load):
+                    dd = self._dominating_def(fn, e.id, node)
+                    if dd is not None:
+                        dv = self.at(fn, dd, dd, depth + 1)
+                        if dv.none == NO:
+                            v.none = NO
         # path facts
         if node is not None:
             for cond, pol in self.facts_at(node):
